@@ -687,12 +687,12 @@ SUBCHECKS = [
                   "dominant entries, length 1..64 (1024 thorough) x {alias, table, bst, huffman}; preimage "
                   "lengths vs p, edge uniforms, batch call with shifted states; non-trivial = >=3 positive "
                   "entries and at least one of {zero, tie, tiny, dominant}",
-             strategy=strat_vector, budget={"quick": 1200, "thorough": 12000}),
+             strategy=strat_vector, budget={"quick": 3600, "thorough": 12000}),
     SubCheck("chain-samplers", body_chain, classify_chain,
              rule="1-d chains (model x grid x 0..1 refinements) through create_sampling_method for each of the "
                   "six accepted options; measured law vs q/lambda, edge uniforms, batch call on the long-lived "
                   "sampler vs single-uniform call on a fresh one",
-             strategy=strat_chain, budget={"quick": 240, "thorough": 2400},
+             strategy=strat_chain, budget={"quick": 720, "thorough": 2400},
              shards={"quick": 16, "thorough": 16}),
     SubCheck("copula-chain-samplers", body_copula_chain, classify_copula_chain,
              rule="copula chains d=2,3 (finite variation) x {INVERSION, adapted tree}: measured law vs cell "
@@ -703,6 +703,6 @@ SUBCHECKS = [
              rule="operation sequences (draw u, repeat an earlier u, draw beyond everything cached, batch) on "
                   "one long-lived INVERSION / adapted-1d sampler; every answer equals a fresh sampler's; "
                   "non-trivial = a repeat together with a far or batch draw",
-             strategy=strat_history, budget={"quick": 160, "thorough": 1600},
+             strategy=strat_history, budget={"quick": 480, "thorough": 1600},
              shards={"quick": 16, "thorough": 16}),
 ]
